@@ -105,17 +105,26 @@ func main() {
 	} else if m := sjRe.FindStringSubmatch(base); m != nil {
 		jk = m[1]
 	}
-	forkDir := comps[len(comps)-2]
-	callPath := strings.Join(comps[:len(comps)-2], ".")
-	idx := ""
-	if strings.HasPrefix(forkDir, "fork_") {
-		idx, _ = url.PathUnescape(forkDir[5:])
-	} else {
-		idx = strings.TrimLeft(forkDir[4:], "0")
-		if idx == "" {
-			idx = "0"
-		}
+	// a fork over several dimensions has one directory level per dimension (fork_a/fork0)
+	nf := 1
+	for len(comps)-2-nf > 0 && strings.HasPrefix(comps[len(comps)-2-nf], "fork") {
+		nf++
 	}
+	callPath := strings.Join(comps[:len(comps)-1-nf], ".")
+	var idxs []string
+	for _, forkDir := range comps[len(comps)-1-nf : len(comps)-1] {
+		one := ""
+		if strings.HasPrefix(forkDir, "fork_") {
+			one, _ = url.PathUnescape(forkDir[5:])
+		} else {
+			one = strings.TrimLeft(forkDir[4:], "0")
+			if one == "" {
+				one = "0"
+			}
+		}
+		idxs = append(idxs, one)
+	}
+	idx := strings.Join(idxs, ",")
 	var inv *run.Inv
 	for _, cand := range []string{callPath + "[" + idx + "]", callPath + "[]"} {
 		for i := range tb.Invs {
